@@ -207,6 +207,18 @@ def c15(run):
             hexes = sorted({H(data1), H(data2)} | {H(p.encode("utf-8")) for p in pids})
             toks = dict(zip(hexes, [r.split("/") for r in layerA(["shard %d %d %s" % (d, w, hx(h)) for h in hexes])]))
             exp_m = expected_layout(lambda h: toks[h], H, pids, data1, data2, doc1, doc2, ns, fmt2)
+            # ... and the whole relative paths from Layout.render (proved contained / injective / prefix-free)
+            rl = []
+            for c_ in sorted({H(data1), H(data2)}):
+                rl += [("obj", c_, "-"), ("cid", c_, "-")]
+            for p_ in pids:
+                rl.append(("pid", H(p_.encode("utf-8")), "-"))
+            rl += [("meta", H(pids[0].encode("utf-8")), H((pids[0] + ns).encode("utf-8"))), ("meta", H(pids[0].encode("utf-8")), H((pids[0] + fmt2).encode("utf-8"))),
+                   ("meta", H(pids[2].encode("utf-8")), H((pids[2] + fmt2).encode("utf-8")))]
+            rendered = set(layerA(["render %d %d %s %s %s" % (d, w, k_, h1, h2) for k_, h1, h2 in rl]))
+            if rendered != set(got):
+                run.disagree("P-layout/render", {"depth": d, "width": w, "algorithm": a, "pids": pids},
+                             sorted(rendered - set(got))[:3], sorted(set(got) - rendered)[:3], ["C18_render_injective", "C18_render_contained", "C15_shard_eq_spec"])
             exp_r = expected_layout(lambda h: readme_shard(d, w, h), H, pids, data1, data2, doc1, doc2, ns, fmt2)
             run.case("P-layout", (d, w, a, tuple(pids)), sample={"projection": "P-layout", "depth": d, "width": w, "algorithm": a,
                                                               "pids": [p[:30] for p in pids], "files": len(got)})
